@@ -13,6 +13,7 @@ package norm
 
 import (
 	"bytes"
+	"crypto/sha1"
 	_ "embed"
 	"fmt"
 	"go/ast"
@@ -37,10 +38,87 @@ func Known() map[string]bool {
 	for _, l := range strings.Split(knownText, "\n") {
 		l = strings.TrimSpace(l)
 		if l != "" && !strings.HasPrefix(l, "#") {
+			if i := strings.Index(l, "\t"); i >= 0 {
+				l = l[:i]
+			}
 			m[l] = true
 		}
 	}
 	return m
+}
+
+var refHashes map[string]map[string]bool
+
+// Unchanged reports whether the declaration is, token for token, the function
+// of that name on the reference tree. The later stages of the normal form
+// leave such functions alone: the rules were confirmed against them as
+// written, and today's tree is its own normal form.
+func Unchanged(rel string, fd *ast.FuncDecl) bool {
+	if refHashes == nil {
+		refHashes = map[string]map[string]bool{}
+		for _, l := range strings.Split(knownText, "\n") {
+			l = strings.TrimSpace(l)
+			i := strings.Index(l, "\t")
+			if l == "" || strings.HasPrefix(l, "#") || i < 0 {
+				continue
+			}
+			set := map[string]bool{}
+			for _, h := range strings.Split(l[i+1:], ",") {
+				set[h] = true
+			}
+			refHashes[l[:i]] = set
+		}
+	}
+	return refHashes[rel+" "+FuncKey(fd)][ASTHash(fd)]
+}
+
+// ASTHash is a hash of the declaration's syntax tree: node kinds, identifiers,
+// literals and operators — no positions, no comments.
+func ASTHash(fd *ast.FuncDecl) string {
+	h := sha1.New()
+	w := func(s string) { h.Write([]byte(s)); h.Write([]byte{0}) }
+	ast.Inspect(fd, func(n ast.Node) bool {
+		if n == nil {
+			w(")")
+			return true
+		}
+		switch x := n.(type) {
+		case *ast.CommentGroup, *ast.Comment:
+			return false
+		case *ast.Ident:
+			w("I" + x.Name)
+		case *ast.BasicLit:
+			w("L" + x.Value)
+		case *ast.BinaryExpr:
+			w("B" + x.Op.String())
+		case *ast.UnaryExpr:
+			w("U" + x.Op.String())
+		case *ast.AssignStmt:
+			w("A" + x.Tok.String())
+		case *ast.IncDecStmt:
+			w("D" + x.Tok.String())
+		case *ast.BranchStmt:
+			w("J" + x.Tok.String())
+		case *ast.RangeStmt:
+			w("R" + x.Tok.String())
+		case *ast.GenDecl:
+			w("G" + x.Tok.String())
+		case *ast.ChanType:
+			w(fmt.Sprintf("C%d", x.Dir))
+		case *ast.CallExpr:
+			if x.Ellipsis.IsValid() {
+				w("call...")
+			} else {
+				w("call")
+			}
+		case *ast.Ellipsis:
+			w("...")
+		default:
+			w(fmt.Sprintf("%T", n))
+		}
+		return true
+	})
+	return fmt.Sprintf("%x", h.Sum(nil))[:16]
 }
 
 // FuncKey names a declaration: "F", "(T).M" or "(*T).M".
@@ -90,6 +168,7 @@ type helper struct {
 }
 
 type planner struct {
+	rel     string // module-relative package path
 	rewrote   map[*types.Var]bool // lookup tables some read of which was rewritten
 	keepAlive map[*ast.File]string
 	res       *Result
@@ -121,7 +200,7 @@ func Plan(pkgs []*packages.Package, known map[string]bool, module string) *Resul
 			continue
 		}
 		rel := strings.TrimPrefix(strings.TrimPrefix(p.PkgPath, module), "/")
-		pl := &planner{res: res, pkg: p, helpers: map[*types.Func]*helper{}, uses: map[*ast.Ident]types.Object{}, origin: map[ast.Node]ast.Node{},
+		pl := &planner{res: res, pkg: p, rel: rel, helpers: map[*types.Func]*helper{}, uses: map[*ast.Ident]types.Object{}, origin: map[ast.Node]ast.Node{},
 			changed: map[*ast.File]bool{}, addImports: map[*ast.File]map[string]string{}}
 		for _, f := range p.Syntax {
 			for _, d := range f.Decls {
@@ -351,6 +430,9 @@ func (pl *planner) run() {
 			}
 			if obj, _ := info.Defs[fd.Name].(*types.Func); obj != nil && pl.helpers[obj] != nil {
 				continue
+			}
+			if Unchanged(pl.rel, fd) {
+				continue // as on the reference tree: it calls no new helper, and its closures stay as written
 			}
 			pl.curFile, pl.curFunc = f, FuncKey(fd)
 			pl.top = true
